@@ -63,9 +63,8 @@ pub fn strategy() -> impl Strategy<Value = Case> {
         vec(0u64..80, 40),
     )
         .prop_map(|(raw, mode_k, picks, ncmd, split, timing_k, rnd)| {
-            // helper traces are keyed by working directory: keep target paths free of trailing slashes here
-            let mut raw = raw;
-            raw.trailing_slash = 0;
+            // (target paths may end in a slash; helper traces are keyed by working directory, which
+            // never does: the look-ups below strip it)
             let mut config = gen::build_config(&raw, CycleMode::Acyclic);
             let n = config.targets.len();
             let names: Vec<String> = (0..ncmd).map(|i| format!("c{}", i)).collect();
@@ -416,7 +415,7 @@ pub fn check(case: &Case, w: usize) -> CheckResult {
                 if ti == ui || !reach[ti].contains(&ui) {
                     continue;
                 }
-                let (Some(tt), Some(tu)) = (tr.get(&(place, t.path.clone())), tr.get(&(place, u.path.clone()))) else {
+                let (Some(tt), Some(tu)) = (tr.get(&(place, t.path.trim_end_matches('/').to_string())), tr.get(&(place, u.path.trim_end_matches('/').to_string()))) else {
                     continue;
                 };
                 if tt.0 < tu.1 {
